@@ -21,6 +21,7 @@ rounded value, `json.loads(render) == input`.
 from __future__ import annotations
 
 import itertools
+import os
 import json
 import re
 import warnings
@@ -543,59 +544,88 @@ def cq(q: str) -> str:
 # ---------------------------------------------------------------- main
 
 
-def main(chk: C.Check, build: C.Build) -> None:  # noqa: PLR0912, PLR0915
-    warnings.simplefilter("ignore")
-    proofs_ok = C.proof_stage(chk, build, NEEDED)
-    thorough = chk.tier == "thorough"
-    r = C.rng("c20")
-    im = Impl()
-    from liquid2.exceptions import LiquidSyntaxError
 
-    items: list[dict[str, Any]] = []
-    stats = {"unescape": 0, "scan": 0, "segment": 0, "site_value": 0, "template_string": 0,
-             "num_token": 0, "int_literal": 0, "float_decimal": 0, "json": 0, "oracle_renders": 0}
-    nontrivial: set[str] = set()
-    samples: list[Any] = []
-    site_counts: dict[str, int] = {}
+_WORDS = re.compile(r"[ \n\r\t]*(?:[A-Za-z_][A-Za-z0-9_-]*(?![.\[A-Za-z0-9_\-\u0080-￿])[ \n\r\t]*)*\}")
 
-    def add(case: str, model: str, replay: dict[str, Any], kind: str) -> None:
-        items.append({"case": case, "model": model, "replay": replay})
-        stats[kind] += 1
 
-    def oracle_fail(sig: str, what: str, replay: dict[str, Any]) -> None:
-        chk.finding(sig, what, replay)
+def in_fragment(raw: str) -> bool:
+    """Every bare `${` of raw is followed by whitespace-separated ASCII words and
+    `}` (the fragment of sub-expressions the concrete sub-scanner models)."""
+    i = 0
+    while i < len(raw):
+        if raw[i] == "\\":
+            i += 2
+            continue
+        if raw[i] == "$" and raw[i + 1: i + 2] == "{":
+            m = _WORDS.match(raw, i + 2)
+            if not m:
+                return False
+            i = m.end()
+            continue
+        i += 1
+    return True
 
-    # ---------------- 1. valid spellings: (q, intended, raw)
-    valid: list[tuple[str, str, str]] = []
+
+def no_surr(s: str) -> bool:
+    return not any(0xD800 <= ord(c) <= 0xDFFF for c in s)
+
+
+class Run:
+    """State of one run: the implementation, the case list, counters."""
+
+    def __init__(self, chk: C.Check) -> None:
+        self.chk = chk
+        self.thorough = chk.tier == "thorough"
+        self.r = C.rng("c20")
+        self.im = Impl()
+        self.items: list[dict[str, Any]] = []
+        self.stats: dict[str, int] = {}
+        self.nontrivial: set[str] = set()
+        self.site_counts: dict[str, int] = {}
+        self.timing: dict[str, float] = {}
+
+    def add(self, kind: str, case: str, model: str, replay: dict[str, Any]) -> None:
+        self.items.append({"case": case, "model": model, "replay": replay})
+        self.stats[kind] = self.stats.get(kind, 0) + 1
+
+    def count(self, kind: str, n: int = 1) -> None:
+        self.stats[kind] = self.stats.get(kind, 0) + n
+
+    def fail(self, sig: str, what: str, replay: dict[str, Any]) -> None:
+        self.chk.finding(sig, what, replay)
+
+
+def gen_valid(run: Run) -> dict[str, list[tuple[str, str, str]]]:
+    """(q, intended, raw) triples."""
+    r, thorough = run.r, run.thorough
+    short: list[tuple[str, str, str]] = []
     for q in (SQ, DQ):
-        valid.append((q, "", ""))
+        short.append((q, "", ""))
         for n in (1, 2):
             for s, raw in enum_spellings(q, n):
-                valid.append((q, s, raw))
-    exhaustive_upto = 2
-    n3 = 0
-    valid3: list[tuple[str, str, str]] = []
+                short.append((q, s, raw))
+    three: list[tuple[str, str, str]] = []
     if thorough:
         for q in (SQ, DQ):
             for s, raw in enum_spellings(q, 3):
-                valid3.append((q, s, raw))
-        exhaustive_upto = 3
-        n3 = len(valid3)
+                three.append((q, s, raw))
     else:
         for q in (SQ, DQ):
             pool = [(c, p) for c in ALPHABET for p in spellings(c, q)]
-            for _ in range(1500):
+            for _ in range(400):
                 combo = [r.choice(pool) for _ in range(3)]
-                valid3.append((q, "".join(c for c, _ in combo), "".join(p for _, p in combo)))
-        n3 = len(valid3)
+                three.append((q, "".join(c for c, _ in combo), "".join(p for _, p in combo)))
     longer: list[tuple[str, str, str]] = []
-    for _ in range(400 if not thorough else 4000):
+    for _ in range(300 if not thorough else 3000):
         q = r.choice((SQ, DQ))
         s = random_string(r, 12)
         longer.append((q, s, random_spelling(r, q, s, False)))
+    return {"short": short, "three": three, "longer": longer}
 
-    # ---------------- 2. direct oracle at every site (implementation only)
-    def check_sites(q: str, s: str, raw: str, site_names: Iterable[str]) -> None:
+
+def oracle_sites(run: Run, triples: Iterable[tuple[str, str, str]], site_names: list[str]) -> None:
+    im = run.im
+    for q, s, raw in triples:
         for name in site_names:
             sd = SITES[name]
             if sd["render"] is None:
@@ -605,207 +635,200 @@ def main(chk: C.Check, build: C.Build) -> None:  # noqa: PLR0912, PLR0915
                 continue     # a bare `${` at a template-string site: interpolation, not this oracle
             if name == "echo_liquid" and ("\n" in raw or "\r" in raw):
                 continue     # a line statement ends at the newline
-            out = attempt(sd["render"], im, q, raw, s)
-            stats["oracle_renders"] += 1
-            site_counts[name] = site_counts.get(name, 0) + 1
             if want != s:
                 raise RuntimeError(f"harness: reference decoder disagrees with the generator on {raw!r}")
+            out = attempt(sd["render"], im, q, raw, s)
+            run.count("oracle_renders")
+            run.site_counts[name] = run.site_counts.get(name, 0) + 1
             exp = sd["expect"](s)
             if out != ("ok", exp):
                 got = out[1] if out[0] == "ok" else type(out[1]).__name__
-                oracle_fail(f"literal-value:{name}",
-                            f"site {name}: literal {lit(q, raw)!r} denotes {got!r}, written {s!r}",
-                            {"site": name, "quote": q, "raw": raw, "intended": s, "got": got,
-                             "source": sd["src"](q, raw)})
+                run.fail(f"literal-value:{name}",
+                         f"site {name}: literal {lit(q, raw)!r} denotes {got!r}, written {s!r}",
+                         {"site": name, "quote": q, "raw": raw, "intended": s, "got": got,
+                          "source": sd["src"](q, raw)})
 
-    all_sites = list(SITES)
-    for q, s, raw in valid:
-        check_sites(q, s, raw, all_sites)
-    for q, s, raw in valid3:
-        check_sites(q, s, raw, all_sites if not thorough else ["output", "path", "if"])
-    if thorough:
-        for q, s, raw in valid3[:: 7]:
-            check_sites(q, s, raw, [n for n in all_sites if n not in ("output", "path", "if")])
-    for q, s, raw in longer:
-        check_sites(q, s, raw, all_sites)
 
-    # invalid spellings: LiquidSyntaxError only, at the output site and the path site
-    mal_valid = [(s, raw) for q, s, raw in valid[:: 5] + longer[:: 4]]
-    mal = malformed(r, mal_valid, 400 if not thorough else 4000)
+def oracle_invalid(run: Run, mal: list[str]) -> None:
+    from liquid2.exceptions import LiquidSyntaxError
+    im = run.im
     for raw in mal:
         for q in (SQ, DQ):
             for name in ("output", "path", "include"):
                 sd = SITES[name]
-                want = ref_decode(q, raw, sd["template"])
-                # is the literal even one literal? (an unescaped quote ends it early)
-                if want is not None or _has_bare(raw, q) or (sd["template"] and _has_interp(raw)):
-                    continue
+                if ref_decode(q, raw, sd["template"]) is not None or _has_bare(raw, q) \
+                        or (sd["template"] and _has_interp(raw)):
+                    continue     # valid, or not one literal (an unescaped quote / an interpolation)
                 out = attempt(sd["render"], im, q, raw, "x")
-                stats["oracle_renders"] += 1
+                run.count("oracle_renders")
+                run.count("oracle_invalid")
                 if not (out[0] == "err" and isinstance(out[1], LiquidSyntaxError)):
                     got = out[1] if out[0] == "ok" else type(out[1]).__name__
-                    oracle_fail(f"invalid-literal-accepted:{name}",
-                                f"site {name}: invalid literal {lit(q, raw)!r} gives {got!r} instead of LiquidSyntaxError",
-                                {"site": name, "quote": q, "raw": raw, "got": got})
+                    run.fail(f"invalid-literal-accepted:{name}",
+                             f"site {name}: invalid literal {lit(q, raw)!r} gives {got!r} instead of LiquidSyntaxError",
+                             {"site": name, "quote": q, "raw": raw, "got": got})
 
-    # ---------------- 3. correspondence: unescape()
-    une_inputs: list[str] = []
-    for q, s, raw in valid + valid3[:: (1 if not thorough else 9)] + longer:
-        une_inputs.append(raw.replace("\\'", "'") if q == SQ else raw)
-    une_inputs += mal
-    une_inputs = list(dict.fromkeys(une_inputs))
-    for raw in une_inputs:
-        if any(0xD800 <= ord(c) <= 0xDFFF for c in raw):
+
+def tie_unescape(run: Run, inputs: list[str]) -> None:
+    from liquid2.exceptions import LiquidSyntaxError
+    im = run.im
+    for raw in dict.fromkeys(inputs):
+        if not no_surr(raw):
             continue
         out = attempt(im.unescape, raw)
-        exp = c_res(out, C.cstr)
-        add(f"une_ok {C.cstr(raw)} {exp}", f"unescape {C.cstr(raw)}",
-            {"function": "liquid2.unescape", "value": raw, "implementation": out[1] if out[0] == "ok" else errname(out)},
-            "unescape")
+        run.add("unescape", f"une_ok {C.cstr(raw)} {c_res(out, C.cstr)}", f"unescape {C.cstr(raw)}",
+                {"function": "liquid2.unescape", "value": raw,
+                 "implementation": out[1] if out[0] == "ok" else errname(out)})
         if "\\" in raw:
-            nontrivial.add("u:" + raw)
-        # direct oracle for the kernel: Python exceptions are never acceptable
+            run.nontrivial.add("u:" + raw)
         if out[0] == "err" and not isinstance(out[1], LiquidSyntaxError):
-            oracle_fail("unescape-python-exception",
-                        f"unescape({raw!r}) raises {type(out[1]).__name__}",
-                        {"value": raw, "exception": type(out[1]).__name__})
+            run.fail("unescape-python-exception", f"unescape({raw!r}) raises {type(out[1]).__name__}",
+                     {"value": raw, "exception": type(out[1]).__name__})
         want = ref_decode(None, raw, False)
         if want is not None and out != ("ok", want):
-            oracle_fail("unescape-value", f"unescape({raw!r}) gives {out[1]!r}, spelled {want!r}",
-                        {"value": raw, "intended": want})
+            run.fail("unescape-value", f"unescape({raw!r}) gives {out[1]!r}, spelled {want!r}",
+                     {"value": raw, "intended": want})
         if want is None and out[0] == "ok":
-            oracle_fail("unescape-accepts-invalid", f"unescape({raw!r}) gives {out[1]!r} for an invalid spelling",
-                        {"value": raw, "got": out[1]})
+            run.fail("unescape-accepts-invalid", f"unescape({raw!r}) gives {out[1]!r} for an invalid spelling",
+                     {"value": raw, "got": out[1]})
 
-    # ---------------- 4. correspondence: scanners through tokenize
-    scan_inputs: list[tuple[str, str]] = [(q, raw) for q, s, raw in valid + valid3[:: (2 if not thorough else 11)] + longer]
-    for raw in mal:
-        scan_inputs.append((r.choice((SQ, DQ)), raw))
-    interp_bodies = ["x", " x ", "x y", "", " ", "y\t", "\nx\n"]
-    ts_cases: list[tuple[str, str]] = []
-    pool3 = valid[:: 3] + longer[:: 2]
-    for _ in range(300 if not thorough else 3000):
+
+def tie_scanners(run: Run, inputs: list[tuple[str, str]], segments: bool) -> None:
+    im = run.im
+    seen: set[tuple[str, str]] = set()
+    for q, raw in inputs:
+        if (q, raw) in seen or not no_surr(raw):
+            continue
+        seen.add((q, raw))
+        if not in_fragment(raw):
+            run.count("scan_outside_fragment")
+        else:
+            src = "{{ " + q + raw + q + " }}"
+            after = raw + q + " }}"
+            out = attempt(im.string_token, src)
+            if out[0] == "ok":
+                tok = im.tokens(src)[0].expression[0]
+                stop = tok.stop if hasattr(tok, "template") else tok.index + len(tok.value) + 1
+                exp = f"(Ok ({c_tok(out[1])}, {C.cstr(src[stop:])}))"
+            else:
+                exp = c_err(out[1])
+            run.add("scan", f"scan_ok {cq(q)} {C.cstr(after)} {exp}", f"scan_tok {cq(q)} {C.cstr(after)}",
+                    {"function": "liquid2.lexer.tokenize", "source": src,
+                     "implementation": out[1] if out[0] == "ok" else errname(out)})
+            if "\\" in raw or "${" in raw:
+                run.nontrivial.add(f"s:{q}:{raw}")
+        if not segments:
+            continue
+        psrc = "{{ x[" + q + raw + q + "] }}"
+        pafter = raw + q + "] }}"
+        pout = attempt(im.path_segment, psrc)
+        if pout[0] == "ok":
+            ptok = im.tokens(psrc)[0].expression[0]
+            if not isinstance(pout[1], str) or len(ptok.path) != 2:
+                continue
+            # `]` follows the closing quote directly: the text after the quote starts at stop - 1
+            pexp = f"(Ok ({C.cstr(pout[1])}, {C.cstr(psrc[ptok.stop - 1:])}))"
+        else:
+            pexp = c_err(pout[1])
+        run.add("segment", f"seg_ok {cq(q)} {C.cstr(pafter)} {pexp}", f"path_segment {cq(q)} {C.cstr(pafter)}",
+                {"function": "tokenize (path segment)", "source": psrc,
+                 "implementation": pout[1] if pout[0] == "ok" else errname(pout)})
+
+
+def tie_site_values(run: Run, inputs: list[tuple[str, str]], every: int) -> None:
+    im = run.im
+    rest = ["if", "include", "macro", "render", "filter_arg", "ternary", "assign", "include_alias"]
+    seen: set[tuple[str, str, str]] = set()
+    for idx, (q, raw) in enumerate(inputs):
+        if not no_surr(raw):
+            continue
+        names = list(SITES) if idx % every == 0 else ["output", "path", rest[idx % len(rest)]]
+        for name in names:
+            sd = SITES[name]
+            if sd["ast"] is None or (name, q, raw) in seen:
+                continue
+            seen.add((name, q, raw))
+            src = sd["src"](q, raw)
+            try:
+                toks = im.tokens(src)
+                if name == "path":
+                    ptok = toks[0].expression[0]
+                    if len(ptok.path) != 2 or ptok.stop != len("{{ x[") + len(raw) + 3:
+                        continue      # the closing quote is not where the generator put it
+                else:
+                    want_q = im.TokenType.SINGLE_QUOTE_STRING if q == SQ else im.TokenType.DOUBLE_QUOTE_STRING
+                    if not any(getattr(t, "type_", None) == want_q and getattr(t, "value", None) == raw
+                               for t in toks[0].expression):
+                        continue      # not lexed as one plain string token (the scanner tie covers it)
+            except Exception:  # noqa: BLE001 - lexing failed: the scanner tie covers it
+                continue
+            out = attempt(lambda sd=sd, src=src: sd["ast"](im.parse(src, {"p": ""})))
+            if out[0] == "err" and not _is_liquid(out[1]) and not isinstance(out[1], (IndexError, ValueError, UnicodeError)):
+                raise out[1]
+            run.add("site_value", f"val_ok {sd['site']} {cq(q)} {C.cstr(raw)} {c_res(out, C.cstr)}",
+                    f"site_value {sd['site']} {cq(q)} {C.cstr(raw)}",
+                    {"site": name, "source": src, "implementation": out[1] if out[0] == "ok" else errname(out)})
+            run.count("site_value:" + name)
+
+
+def gen_template_strings(run: Run, pool: list[tuple[str, str, str]], n: int) -> list[tuple[str, str]]:
+    r = run.r
+    bodies = ["x", " x ", "x y", "", " ", "y\t", "\nx\n", "y"]
+    out: list[tuple[str, str]] = []
+    for _ in range(n):
         q = r.choice((SQ, DQ))
         segs = []
         for _ in range(r.randint(1, 3)):
-            qq, s, raw = r.choice(pool3)
-            segs.append(random_spelling(r, q, s, True) if qq != q or ref_decode(q, raw, True) is None else raw)
-            segs.append("${" + r.choice(interp_bodies) + "}")
+            _, s, _ = r.choice(pool)
+            segs.append(random_spelling(r, q, s, True))
+            segs.append("${" + r.choice(bodies) + "}")
         if r.random() < 0.6:
-            qq, s, raw = r.choice(pool3)
+            _, s, _ = r.choice(pool)
             segs.append(random_spelling(r, q, s, True))
         if r.random() < 0.15:
-            segs.insert(r.randrange(len(segs) + 1), r.choice(["${", "$", "{", "${x", "\\${x}", "$\\u007bx}", "${x}}"]))
-        ts_cases.append((q, "".join(segs)))
-    scan_inputs += ts_cases
-    seen_scan: set[tuple[str, str]] = set()
-    for q, raw in scan_inputs:
-        if (q, raw) in seen_scan or any(0xD800 <= ord(c) <= 0xDFFF for c in raw):
-            continue
-        seen_scan.add((q, raw))
-        tail = " }}"
-        src = "{{ " + q + raw + q + tail
-        after = raw + q + tail
-        out = attempt(im.string_token, src)
-        if out[0] == "ok":
-            # the rest: what follows the closing quote of the token
-            tok = im.tokens(src)[0].expression[0]
-            stop = tok.stop if hasattr(tok, "template") else tok.index + len(tok.value) + 1
-            exp = f"(Ok ({c_tok(out[1])}, {C.cstr(src[stop:])}))"
-        else:
-            exp = c_err(out[1])
-        add(f"scan_ok {cq(q)} {C.cstr(after)} {exp}", f"scan_tok {cq(q)} {C.cstr(after)}",
-            {"function": "liquid2.lexer.tokenize", "source": src,
-             "implementation": out[1] if out[0] == "ok" else errname(out)}, "scan")
-        if "\\" in raw or "${" in raw:
-            nontrivial.add(f"s:{q}:{raw}")
-        # path segment scanner
-        psrc = "{{ x[" + q + raw + q + "] }}"
-        pout = attempt(im.path_segment, psrc)
-        if pout[0] == "ok":
-            seg = pout[1]
-            ptok = im.tokens(psrc)[0].expression[0]
-            # `]` follows the closing quote directly: the text after the quote starts at stop - 1
-            pexp = (f"(Ok ({C.cstr(seg)}, {C.cstr(psrc[ptok.stop - 1:])}))"
-                    if isinstance(seg, str) and len(ptok.path) == 2 else None)
-        else:
-            pexp = c_err(pout[1])
-        if pexp is not None:
-            add(f"seg_ok {cq(q)} {C.cstr(raw + q + '] }}')} {pexp}", f"path_segment {cq(q)} {C.cstr(raw + q + '] }}')}",
-                {"function": "tokenize (path segment)", "source": psrc,
-                 "implementation": pout[1] if pout[0] == "ok" else errname(pout)}, "segment")
+            segs.insert(r.randrange(len(segs) + 1), r.choice(["$", "{", "\\${x}", "$\\u007bx}", "${x}}", "$$", "}"]))
+        out.append((q, "".join(segs)))
+    return out
 
-    # ---------------- 5. correspondence: the value of the raw token text at each site
-    val_inputs = [(q, raw) for q, s, raw in valid[:: (1 if thorough else 2)] + valid3[:: (3 if not thorough else 13)] + longer]
-    val_inputs += [(r.choice((SQ, DQ)), raw) for raw in mal[:: 2]]
-    seen_val: set[tuple[str, str, str]] = set()
-    for idx, (q, raw) in enumerate(val_inputs):
-        if any(0xD800 <= ord(c) <= 0xDFFF for c in raw):
-            continue
-        names = list(SITES) if idx % 4 == 0 or thorough else ["output", "path", ["if", "include", "macro", "render", "filter_arg", "ternary", "assign", "include_alias"][idx % 8]]
-        for name in names:
-            sd = SITES[name]
-            if sd["ast"] is None or (name, q, raw) in seen_val:
-                continue
-            seen_val.add((name, q, raw))
-            src = sd["src"](q, raw)
-            # the raw text the lexer hands to the parse site
-            try:
-                if name == "path":
-                    ptok = im.tokens(src)[0].expression[0]
-                    if len(ptok.path) != 2 or ptok.stop != len("{{ x[") + len(raw) + 3:
-                        continue      # the closing quote is not where the generator put it
-                    tokraw = raw
-                else:
-                    toks = im.tokens(src)
-                    cands = [t for t in toks[0].expression if getattr(t, "value", None) is not None
-                             and t.type_ in (im.TokenType.SINGLE_QUOTE_STRING, im.TokenType.DOUBLE_QUOTE_STRING)]
-                    want_q = im.TokenType.SINGLE_QUOTE_STRING if q == SQ else im.TokenType.DOUBLE_QUOTE_STRING
-                    pick = [t for t in cands if t.type_ == want_q and t.value == raw]
-                    if not pick:
-                        continue      # not lexed as one plain string token (covered by the scanner tie)
-                    tokraw = raw
-            except Exception:  # noqa: BLE001 - lexing failed: covered by the scanner tie
-                continue
-            out = attempt(lambda: sd["ast"](im.parse(src, {"p": ""})))
-            if out[0] == "err" and not _is_liquid(out[1]) and not isinstance(out[1], (IndexError, ValueError, UnicodeError)):
-                raise out[1]
-            exp = c_res(out, C.cstr)
-            add(f"val_ok {sd['site']} {cq(q)} {C.cstr(tokraw)} {exp}",
-                f"site_value {sd['site']} {cq(q)} {C.cstr(tokraw)}",
-                {"site": name, "source": src, "implementation": out[1] if out[0] == "ok" else errname(out)},
-                "site_value")
 
-    # ---------------- 6. template strings: value
-    for q, raw in ts_cases[:: (1 if thorough else 2)]:
-        if any(0xD800 <= ord(c) <= 0xDFFF for c in raw):
+def tie_template_values(run: Run, cases: list[tuple[str, str]]) -> None:
+    im = run.im
+    for q, raw in cases:
+        if not no_surr(raw) or not in_fragment(raw):
             continue
         src = "{{ " + q + raw + q + " }}"
         try:
             tok = im.string_token(src)
         except Exception:  # noqa: BLE001
             continue
-        if tok[0] == "tmpl" and any(k == "e" and len(v) != 1 for k, v in tok[1]):
+        if tok[0] == "tmpl" and any(k == "e" and (len(v) != 1 or v[0] not in ("x", "y")) for k, v in tok[1]):
             continue        # `${}` / `${x y}`: parse errors of the sub-expression, outside the model
-        if tok[0] == "tmpl" and any(k == "e" and v[0] not in ("x", "y") for k, v in tok[1]):
-            continue
         xv, yv = "<Xé>", "${y}"
         out = attempt(im.render, src, {"x": xv, "y": yv})
-        exp = c_res(out, C.cstr)
         after = raw + q + " }}"
-        add(f"tsv_ok {cq(q)} {C.cstr(xv)} {C.cstr(yv)} {C.cstr(after)} {exp}",
-            f"scan_tok {cq(q)} {C.cstr(after)}",
-            {"source": src, "data": {"x": xv, "y": yv}, "implementation": out[1] if out[0] == "ok" else errname(out)},
-            "template_string")
-        # oracle: segments decode independently, interpolations substitute
+        run.add("template_string", f"tsv_ok {cq(q)} {C.cstr(xv)} {C.cstr(yv)} {C.cstr(after)} {c_res(out, C.cstr)}",
+                f"scan_tok {cq(q)} {C.cstr(after)}",
+                {"source": src, "data": {"x": xv, "y": yv},
+                 "implementation": out[1] if out[0] == "ok" else errname(out)})
         want = _ref_template(q, raw, {"x": xv, "y": yv})
         if want is not None and out != ("ok", want):
             got = out[1] if out[0] == "ok" else type(out[1]).__name__
-            oracle_fail("template-string-value", f"{src!r} renders {got!r}, written {want!r}",
-                        {"source": src, "intended": want, "got": got})
-        nontrivial.add(f"t:{q}:{raw}")
+            run.fail("template-string-value", f"{src!r} renders {got!r}, written {want!r}",
+                     {"source": src, "intended": want, "got": got})
+        run.nontrivial.add(f"t:{q}:{raw}")
 
-    # ---------------- 7. numbers
+
+def c_bigint(v: int, mant: int | None = None, ex: int = 0) -> str | None:
+    """A Coq term for the Python int v (long values only in factored form)."""
+    if len(str(abs(v))) <= 120:
+        return C.cZ(v)
+    if mant is not None and mant * 10 ** ex == v:
+        return f"({C.cZ(mant)} * 10 ^ {ex})%Z"
+    return None
+
+
+def tie_numbers(run: Run) -> None:
+    im, r, thorough = run.im, run.r, run.thorough
     maxlen = 4 if not thorough else 5
     num_inputs: list[str] = []
     for n in range(1, maxlen + 1):
@@ -823,132 +846,194 @@ def main(chk: C.Check, build: C.Build) -> None:  # noqa: PLR0912, PLR0915
             exp = f"(Some ({'KFloat' if m.lastgroup == 'FLOAT' else 'KInt'}, {C.cstr(m.group())}, {C.cstr(s[m.end():])}))"
         else:
             exp = "None"
-        add(f"num_ok {C.cstr(s)} {exp}", f"num_token {C.cstr(s)}",
-            {"function": "Lexer.TOKEN_RULES.match", "text": s,
-             "implementation": [m.lastgroup, m.group()] if m else None}, "num_token")
+        run.add("num_token", f"num_ok {C.cstr(s)} {exp}", f"num_token {C.cstr(s)}",
+                {"function": "Lexer.TOKEN_RULES.match", "text": s,
+                 "implementation": [m.lastgroup, m.group()] if m else None})
+    run.num_maxlen = maxlen  # type: ignore[attr-defined]
 
-    # integer literals: the conversion function and the rendered value
     limit = im.max_str_int
     re_int = re.compile(r"-?[0-9]+(?:[eE]\+?[0-9]+)?")
     garbage = ["", "e", "1e", "e1", "+1", "1e+", "1e-3", "--1", "1ee2", "1e2e3", "-", "1E", "1.5", "1e1.5", "1e+-2"]
     for s in ints + garbage:
         valid_int = bool(re_int.fullmatch(s))
+        mant_s, _, ex_s = s.lower().partition("e")
         if im.parse_integer_literal is not None:
             tok = im.Token(type_=im.TokenType.INT, value=s, index=0, source=s)
             out = attempt(im.parse_integer_literal, tok)
             if out[0] == "ok" and not isinstance(out[1], int):
                 out = ("err", TypeError("not an int"))
-            if len(s) <= 80 or valid_int and out[0] == "err":
-                exp = c_res(out, C.cZ)
-                add(f"int_ok {limit} {C.cstr(s)} {exp}", f"parse_integer_literal {limit} {C.cstr(s)}",
-                    {"function": "parse_integer_literal", "value": s,
-                     "implementation": str(out[1]) if out[0] == "ok" else errname(out)}, "int_literal")
+            exp: str | None
+            if out[0] == "ok":
+                fact = (int(mant_s), int(ex_s)) if valid_int and ex_s and len(ex_s) < 6 else (None, 0)
+                z = c_bigint(out[1], *fact)
+                exp = f"(Ok {z})" if z is not None else None
+            else:
+                exp = c_err(out[1])
+            if exp is not None:
+                run.add("int_literal", f"int_ok {limit} {C.cstr(s)} {exp}", f"parse_integer_literal {limit} {C.cstr(s)}",
+                        {"function": "parse_integer_literal", "value": s[:100],
+                         "implementation": str(out[1])[:100] if out[0] == "ok" else errname(out)})
         if not valid_int:
             continue
-        # oracle: the number written
-        mant, _, ex = s.lower().partition("e")
-        digits_needed = len(mant.lstrip("-").lstrip("0") or "0") + int(ex or "0")
+        digits_needed = len(mant_s.lstrip("-").lstrip("0") or "0") + (int(ex_s or "0") if len(ex_s) < 7 else 10**7)
         out = attempt(im.render, "{{ " + s + " }}")
-        stats["oracle_renders"] += 1
-        if digits_needed > 4000 or len(ex) > 6:
-            # beyond the digit limit (or near it): any LiquidError is acceptable, a Python exception is not
+        run.count("oracle_renders")
+        if digits_needed > 4000:
+            # near or beyond the digit limit: a LiquidError is acceptable, a Python exception is not
             if out[0] == "err" and not _is_liquid(out[1]):
-                oracle_fail("int-literal-python-exception", f"{{{{ {s[:40]} }}}} raises {type(out[1]).__name__}",
-                            {"source": "{{ " + s + " }}", "exception": type(out[1]).__name__})
+                run.fail("int-literal-python-exception", f"{{{{ {s[:40]} }}}} raises {type(out[1]).__name__}",
+                         {"source": "{{ " + s[:200] + " }}", "exception": type(out[1]).__name__})
             continue
-        want = str(int(mant) * 10 ** int(ex or "0"))
+        want = str(int(mant_s) * 10 ** int(ex_s or "0"))
         if out != ("ok", want):
             got = out[1] if out[0] == "ok" else type(out[1]).__name__
             sig = "int-literal-python-exception" if out[0] == "err" and not _is_liquid(out[1]) else "int-literal-value"
-            oracle_fail(sig, f"{{{{ {s} }}}} renders {str(got)[:60]!r}, written {want[:60]!r}",
-                        {"source": "{{ " + s + " }}", "intended": want, "got": str(got)})
-        if abs(int(want)) >= 2**53 or ex:
-            nontrivial.add("i:" + s)
-        # the same literal at other integer sites
+            run.fail(sig, f"{{{{ {s} }}}} renders {str(got)[:60]!r}, written {want[:60]!r}",
+                     {"source": "{{ " + s + " }}", "intended": want, "got": str(got)})
+        if abs(int(want)) >= 2**53 or ex_s:
+            run.nontrivial.add("i:" + s)
         if len(want) < 40 and r.random() < 0.25:
-            o2 = attempt(im.render, "{% assign z = " + s + " %}{{ z }}|{% if " + s + " == v %}T{% endif %}|{{ 0 | plus: " + s + " }}",
-                         {"v": int(want)})
+            src = "{% assign z = " + s + " %}{{ z }}|{% if " + s + " == v %}T{% endif %}|{{ 0 | plus: " + s + " }}"
+            o2 = attempt(im.render, src, {"v": int(want)})
+            run.count("oracle_renders")
             if o2 != ("ok", f"{want}|T|{want}"):
                 got = o2[1] if o2[0] == "ok" else type(o2[1]).__name__
-                oracle_fail("int-literal-value", f"integer literal {s} at assign/if/filter argument: {got!r}",
-                            {"literal": s, "intended": want, "got": str(got)})
+                run.fail("int-literal-value", f"integer literal {s} at assign/if/filter argument: {got!r}",
+                         {"source": src, "intended": want, "got": str(got)})
 
-    # float literals
     for s in floats:
         d = Decimal(s)
         sign, digits, e = d.as_tuple()
         m = int("".join(map(str, digits)) or "0")
-        add(f"dec_ok {C.cstr(s)} (Some ({C.cZ(-m if sign else m)}, {C.cZ(e)}))",
-            f"float_decimal {C.cstr(s)}", {"function": "decimal.Decimal", "text": s, "implementation": str(d.as_tuple())},
-            "float_decimal")
+        run.add("float_decimal", f"dec_ok {C.cstr(s)} (Some ({C.cZ(-m if sign else m)}, {C.cZ(e)}))",
+                f"float_decimal {C.cstr(s)}",
+                {"function": "decimal.Decimal", "text": s, "implementation": str(d.as_tuple())})
         out = attempt(im.render, "{{ " + s + " }}")
-        stats["oracle_renders"] += 1
-        ok = out[0] == "ok" and _float_eq(out[1], float(d))
-        if not ok:
+        run.count("oracle_renders")
+        if not (out[0] == "ok" and _float_eq(out[1], float(d))):
             got = out[1] if out[0] == "ok" else type(out[1]).__name__
-            oracle_fail("float-literal-value", f"{{{{ {s} }}}} renders {got!r}, nearest binary64 of what is written is {float(d)!r}",
-                        {"source": "{{ " + s + " }}", "got": str(got), "intended": repr(float(d))})
-        nontrivial.add("f:" + s)
+            run.fail("float-literal-value",
+                     f"{{{{ {s} }}}} renders {got!r}, nearest binary64 of what is written is {float(d)!r}",
+                     {"source": "{{ " + s + " }}", "got": str(got), "intended": repr(float(d))})
+        run.nontrivial.add("f:" + s)
 
-    # ---------------- 8. json
+
+def tie_json(run: Run) -> None:
+    im, r = run.im, run.r
     jvals: list[Any] = [None, True, False, 0, -1, 2**53 + 1, 10**40, -(10**40), "", "a", "\"", "\\", "\n\r\t\x08\x0c",
                         "\x1f\x7f\u0080é ￿", "\U00010000\U0001F600\U0010FFFF", "${x}{{ y }}{% z %}",
                         "'", "/", [], {}, [[]], [{}], {"": ""}, {"a": [1, {"b": None}]}, [1, [2, [3, [4]]]],
                         {"k\"": "v\\", "é": [True, False]}, "</script>", "\x08\x09\x0a\x0b\x0c\x0d\x0e"]
-    for c in ALPHABET + EXTRA_CHARS:
-        jvals.append(c)
-    for _ in range(250 if not thorough else 2500):
+    jvals += ALPHABET + EXTRA_CHARS
+    for _ in range(250 if not run.thorough else 2500):
         jvals.append(random_json(r, 3))
     for v in jvals:
         out = attempt(im.render, "{{ x | json }}", {"x": v})
-        stats["oracle_renders"] += 1
+        run.count("oracle_renders")
         if out[0] != "ok":
-            oracle_fail("json-exception", f"json filter raises {type(out[1]).__name__} on {v!r}"[:200],
-                        {"value": v, "exception": type(out[1]).__name__})
+            run.fail("json-exception", f"json filter raises {type(out[1]).__name__} on {v!r}"[:200],
+                     {"value": v, "exception": type(out[1]).__name__})
             continue
         try:
             back = json.loads(out[1])
         except Exception as e:  # noqa: BLE001
             back = e
         if not _json_equal(back, v):
-            oracle_fail("json-roundtrip", f"json.loads(render) = {back!r} for input {v!r}"[:300],
-                        {"value": v, "output": out[1]})
-        add(f"json_ok {c_jv(v)} {C.cstr(out[1])}", f"json_filter {c_jv(v)}",
-            {"template": "{{ x | json }}", "x": v, "implementation": out[1]}, "json")
+            run.fail("json-roundtrip", f"json.loads(render) = {back!r} for input {v!r}"[:300],
+                     {"value": v, "output": out[1]})
+        run.add("json", f"json_ok {c_jv(v)} {C.cstr(out[1])}", f"json_filter {c_jv(v)}",
+                {"template": "{{ x | json }}", "x": v, "implementation": out[1]})
         if out[1] != json.dumps(v, ensure_ascii=False, separators=(",", ":")):
-            nontrivial.add("j:" + out[1])
+            run.nontrivial.add("j:" + out[1])
 
-    # ---------------- run the model
-    if items:
-        C.correspond(chk, "c20", IMPORTS, DEFS, items, what="literals", shard=400)
+
+def main(chk: C.Check, build: C.Build) -> None:
+    import time
+    warnings.simplefilter("ignore")
+    proofs_ok = C.proof_stage(chk, build, NEEDED)
+    run = Run(chk)
+    thorough, r = run.thorough, run.r
+    t0 = time.time()
+
+    def lap(name: str) -> None:
+        nonlocal t0
+        run.timing[name] = round(time.time() - t0, 1)
+        t0 = time.time()
+
+    v = gen_valid(run)
+    short, three, longer = v["short"], v["three"], v["longer"]
+    all_sites = list(SITES)
+    few = ["output", "path", "if"]
+    others = [n for n in all_sites if n not in few]
+    # direct oracle
+    oracle_sites(run, short, all_sites if thorough else few)
+    if not thorough:
+        oracle_sites(run, short[:: 3], others)
+    oracle_sites(run, three, few)
+    oracle_sites(run, three[:: (4 if not thorough else 9)], others)
+    oracle_sites(run, longer, all_sites)
+    lap("oracle_valid")
+    mal = malformed(r, [(s, raw) for q, s, raw in short[:: 9] + longer[:: 3]], 300 if not thorough else 3000)
+    oracle_invalid(run, mal if thorough else mal[:: 2])
+    lap("oracle_invalid")
+
+    # correspondence
+    k = 1 if thorough else 3
+    sub_short = [t for t in short if len(t[1]) <= 1] + [t for t in short if len(t[1]) == 2][:: 2 * k]
+    sub_three = three[:: (2 if not thorough else 40)]
+    base = sub_short + sub_three + longer
+    tie_unescape(run, [raw.replace("\\'", "'") if q == SQ else raw for q, s, raw in base] + mal)
+    lap("tie_unescape")
+    ts_cases = gen_template_strings(run, short[:: 3] + longer, 200 if not thorough else 2000)
+    scan_in = [(q, raw) for q, s, raw in base[:: (2 if not thorough else 1)]] \
+        + [(r.choice((SQ, DQ)), raw) for raw in mal[:: (2 if not thorough else 1)]] + ts_cases
+    tie_scanners(run, scan_in, True)
+    lap("tie_scanners")
+    val_in = [(q, raw) for q, s, raw in base[:: (2 if not thorough else 1)]] \
+        + [(r.choice((SQ, DQ)), raw) for raw in mal[:: (4 if not thorough else 2)]]
+    tie_site_values(run, val_in, 6 if not thorough else 2)
+    lap("tie_site_values")
+    tie_template_values(run, ts_cases)
+    lap("tie_template_values")
+    tie_numbers(run)
+    lap("tie_numbers")
+    tie_json(run)
+    lap("tie_json")
+
+    if run.items and not os.environ.get("C20_NOCOQ"):
+        C.correspond(chk, "c20", IMPORTS, DEFS, run.items, what="literals", shard=300)
+    lap("coq")
     C.proofs_verdict(chk, proofs_ok)
 
-    for q, s, raw in valid + valid3 + longer:
+    for q, s, raw in short + three + longer:
         if raw != s:
-            nontrivial.add(f"v:{q}:{raw}")
+            run.nontrivial.add(f"v:{q}:{raw}")
+    im = run.im
     chk.coverage.update({
-        "evaluations": len(items) + stats["oracle_renders"],
-        "distinct_nontrivial": len(nontrivial),
+        "evaluations": len(run.items) + run.stats.get("oracle_renders", 0),
+        "distinct_nontrivial": len(run.nontrivial),
         "rule": ("string literals: every string of length <= %d over the alphabet %s under every valid spelling of each "
-                 "character (self, two-character escape, \\uXXXX lower/upper case, surrogate pair lower/upper/mixed), in both "
-                 "kinds of quotes%s, plus seeded longer strings over BMP + astral planes; rendered at %d sites "
+                 "character (itself, two-character escape, \\uXXXX lower/upper case, surrogate pair lower/upper/mixed), in both "
+                 "kinds of quotes%s, plus seeded longer strings over BMP + astral planes; the direct oracle renders them at %d sites "
                  "(%s); malformed: every prefix / one edit / one deletion / one insertion of valid spellings, random strings "
                  "over an escape alphabet, hand-picked window and surrogate boundaries. numbers: every string of length <= %d "
                  "over '%s' through the token regex, integer spellings up to 10^40 (and around 2^53, 10^22/23, 10^308/309, the "
                  "4300-digit limit) with e/E/+ exponents, decimal and scientific floats. json: seeded nested values. "
                  "non-trivial = the case contains an escape, an interpolation, a number beyond 2^53 or with an exponent, "
                  "or JSON text with an escape") % (
-                     exhaustive_upto, json.dumps("".join(ALPHABET)),
-                     "" if thorough else " (length 3: a seeded sample of %d)" % n3,
-                     len(SITES), ", ".join(SITES), maxlen, NUM_ALPHA),
+                     3 if thorough else 2, json.dumps("".join(ALPHABET)),
+                     "" if thorough else " (length 3: a seeded sample of %d)" % len(three),
+                     len(SITES), ", ".join(SITES), getattr(run, "num_maxlen", 4), NUM_ALPHA),
         "samples": [
-            {"site": "output", "source": "{{ 'a\\'\\uD83D\\uDE00' }}", "rendered": attempt(im.render, "{{ 'a\\'\\uD83D\\uDE00' }}")[1].__repr__()},
+            {"source": "{{ 'a\\'\\uD83D\\uDE00' }}", "rendered": repr(attempt(im.render, "{{ 'a\\'\\uD83D\\uDE00' }}")[1])},
             {"source": "{{ 9007199254740993 }}", "rendered": str(attempt(im.render, "{{ 9007199254740993 }}")[1])},
             {"source": "{{ 1e23 }}", "rendered": str(attempt(im.render, "{{ 1e23 }}")[1])},
-            {"source": "{{ x | json }}", "x": "é\U0001F600\"", "rendered": str(attempt(im.render, "{{ x | json }}", {"x": "é\U0001F600\""})[1])},
+            {"source": "{{ x | json }}", "x": "é\U0001F600\"",
+             "rendered": str(attempt(im.render, "{{ x | json }}", {"x": "é\U0001F600\""})[1])},
         ],
-        "distribution": dict(stats, sites=site_counts, valid_spellings=len(valid) + len(valid3) + len(longer),
-                             malformed=len(mal)),
+        "distribution": dict(run.stats, oracle_sites=run.site_counts,
+                             valid_spellings=len(short) + len(three) + len(longer), malformed=len(mal)),
+        "timing_s": run.timing,
         "exhaustive": False,
         "tier_proved": "kernel (unescape, string scanners, parse-site denotation, numeric literals, json encoder)",
     })
